@@ -65,12 +65,12 @@ static sexp mk_arg(int cls, int slot) {
   }
 }
 
-static unsigned long code_words[4];
+static sexp code_words[4];          /* typed as sexp: the inline operand reads ((sexp*)ip)[k] fold */
 
 void h_op(void) {
   struct verif_vm S;
   /* context, stack, globals: statically typed, registered */
-  vm_ctx_obj.tag = SEXP_CONTEXT; verif_register(&vm_ctx_obj);
+  vm_ctx_obj.h.tag = SEXP_CONTEXT; verif_register(&vm_ctx_obj);
   vm_stack_obj.h.tag = SEXP_STACK; vm_stack_obj.length = VM_STACK_SLOTS; verif_register(&vm_stack_obj);
   vm_globals_obj.h.tag = SEXP_VECTOR; vm_globals_obj.length = SEXP_G_NUM_GLOBALS; verif_register(&vm_globals_obj);
   sexp ctx = (sexp)&vm_ctx_obj;
@@ -99,7 +99,7 @@ void h_op(void) {
 #if NARGS >= 3
   in_arg[2] = mk_arg(CLS3, 2); S.stack[S.top - 3] = in_arg[2];
 #endif
-  for (int w = 0; w < 4; w++) code_words[w] = nondet_ulong();
+  for (int w = 0; w < 4; w++) code_words[w] = (sexp)nondet_ulong();
   S.ip = (unsigned char*)code_words;
   S.bc = SEXP_FALSE; S.cp = SEXP_FALSE; S.tmp = SEXP_VOID; S.self = SEXP_FALSE; S.tmp1 = SEXP_VOID; S.tmp2 = SEXP_VOID;
   S.i = S.j = S.k = 0;
